@@ -303,9 +303,7 @@ func (r *rewriter) rewriteFile() error {
 					if ip == "reflect" && sel.Sel.Name == "Select" {
 						r.fail(n, "reflect.Select is not supported")
 					}
-					if ip == "sync" && (sel.Sel.Name == "NewCond") {
-						r.fail(n, "sync.NewCond is not supported")
-					}
+
 				}
 			}
 		}
